@@ -30,7 +30,7 @@ PROPS = {
     "C12": {
         "level": "exploration",
         "tests": [
-            {"name": "TestC12", "quick": 500, "thorough": 40000},
+            {"name": "TestC12", "quick": 1500, "thorough": 40000},
         ],
     },
     "C06": {
